@@ -132,6 +132,9 @@ def run(ctx):
     # the deviations of the code, on the model: which property each one breaks
     for mod, cfg, inv in DEV_DEMOS:
         dv = ctx.tlc(mod, cfg, workers=4, coverage=False, label=cfg, expect_violation=inv, count=False)
+        if inv == "TemporalProperty":
+            # this TLC prints "Temporal property Completes was violated"
+            dv.ok = "Temporal property Completes was violated" in open(dv.log).read()
         if not dv.ok:
             raise vlib.ToolError("%s: expected %s to be violated (got %s)" % (cfg, inv, dv.violated))
 
